@@ -389,6 +389,8 @@ func checkC15(p *Prog, r *Report) {
 	r.Rule("R9", "a handler subscribed at core level does its work before HandleEvent returns: no go statement in it or its helpers (otherwise 'core handlers have finished before Publish returns and before application handlers run' is void)")
 	r.Rule("R10", "the stack subscribes its core handler on every path of the function that sets up a peer: the subscription is not conditional (two peers set up concurrently, or a peer registered through the public API, would otherwise leave the stack without its core handler)")
 
+	r.Rule("R11", "no cycle of the held->acquired relation over all mutexes (along synchronous calls) passes through a lock of the event bus: a publisher that holds a lock a core handler needs (a feature's data lock while publishing the data change) blocks Publish for good, and every later publication with it")
+	lockOrderOn(p, r, "R11", "events.", "locks of the event bus")
 	r.Rule("R8", "the stack's own core handler stays subscribed while any peer is connected: RemoveRemoteDevice unsubscribes it only under 'the remote-device map is empty', the size being read after the removal in the same critical section")
 	coreUnsubscribeRule(p, ls, r, "R8")
 	r.Rule("R6", "unsubscribe keeps a handler ⇔ ¬(level ∧ handler equal); subscribe appends only after a miss of the same pair inside one critical section; every read-modify-write of the handler list reads and stores inside one critical section")
